@@ -324,6 +324,20 @@ Section Model.
                             (zrange x_shift (trunc (two *! x_max /! scale) + 1));
        c_side := scale; c_xoff := zero; c_yoff := zero; c_flipped := false |}.
 
+  (* ---------------- the user edits an ArrayTriangles object in place: A.vertices[j] = p ---------------- *)
+  (* numpy assignment into the stored vertex array (j in range; out of range raises and changes nothing) *)
+  Fixpoint set_nth (j : nat) (p : pt) (vs : list pt) : list pt :=
+    match vs, j with
+    | [], _ => []
+    | _ :: t, 0%nat => p :: t
+    | q :: t, S j' => q :: set_nth j' p t
+    end.
+  Definition a_set_vertex (A : atri) (e : nat * pt) : atri := (fst A, set_nth (fst e) (snd e) (snd A)).
+  (* a history of such edits; every property / method of ArrayTriangles is a function of the CURRENT arrays *)
+  Definition a_edits (A : atri) (es : list (nat * pt)) : atri := fold_left a_set_vertex es A.
+  Definition edits_in_range (A : atri) (es : list (nat * pt)) : bool :=
+    forallb (fun e : nat * pt => Nat.ltb (fst e) (length (snd A))) es.
+
   (* ---------------- specification side (independent of the routines above) ---------------- *)
   (* the midpoint subdivision as a set of four triangles, written from the parent's corners *)
   Definition lin2 (a b : T) (p q : pt) : pt := (a *! fst p +! b *! fst q, a *! snd p +! b *! snd q).
@@ -346,210 +360,20 @@ Section Model.
     let o := edge_fn (v0 t) (v1 t) (v2 t) in
     negb (eqb O o zero) &&
     (((zero <=! d0) && (zero <=! d1) && (zero <=! d2)) || ((d0 <=! zero) && (d1 <=! zero) && (d2 <=! zero))).
+  (* the value a vertex slot holds after a history of edits: the last write to it, else the original row *)
+  Fixpoint last_write (es : list (nat * pt)) (i : nat) : option pt :=
+    match es with
+    | [] => None
+    | e :: r => match last_write r i with
+                | Some p => Some p
+                | None => if Nat.eqb (fst e) i then Some (snd e) else None
+                end
+    end.
+  Definition slot_after (vs : list pt) (es : list (nat * pt)) (i : nat) : pt :=
+    match last_write es i with Some p => p | None => getv vs i end.
 End Model.
 
 Arguments mkcs {O}.
 Arguments shape : clear implicits.
 Arguments cs : clear implicits.
 
-(* ====================================================================== correspondence (at Q) *)
-Definition qpt : Type := (Q * Q)%type.
-Definition qtri : Type := (qpt * qpt * qpt)%type.
-Definition qatri : Type := (list idx3 * list qpt)%type.
-Definition qcs : Type := cs QOps.
-Definition mkq : list zpt -> Q -> Q -> Q -> bool -> qcs := @mkcs QOps.
-Definition qshape : Type := shape QOps.
-Definition QPoint : qpt -> qshape := @SPoint QOps.
-Definition QCircle : qpt -> Q -> qshape := @SCircle QOps.
-Definition QTriangle : qpt -> qpt -> qpt -> qshape := @STriangle QOps.
-Definition QPolygon : list qpt -> qshape := @SPolygon QOps.
-Definition QSquare : Q -> Q -> Q -> Q -> qshape := @SSquare QOps.
-
-Definition tol : Q := 1 # 1000000000.
-Definition qclose (a b : Q) : bool := Qabs_le_tol tol a b.
-(* ex = true: exact comparison (dyadic inputs); ex = false: 1e-9 *)
-Definition qcmp (ex : bool) (a b : Q) : bool := if ex then Qeq_bool a b else qclose a b.
-(* vm_compute is call-by-value: [a && b] evaluates both sides.  The quadratic set comparisons below use
-   explicitly lazy connectives. *)
-Notation "a &&& b" := (if a then b else false) (at level 40, left associativity).
-Notation "a ||| b" := (if a then true else b) (at level 50, left associativity).
-Fixpoint lexistsb {A} (f : A -> bool) (l : list A) : bool :=
-  match l with [] => false | x :: t => if f x then true else lexistsb f t end.
-Fixpoint lforallb {A} (f : A -> bool) (l : list A) : bool :=
-  match l with [] => true | x :: t => if f x then lforallb f t else false end.
-Definition pt_cmp (ex : bool) (p q : qpt) : bool := qcmp ex (fst p) (fst q) &&& qcmp ex (snd p) (snd q).
-Definition tri_cmp (ex : bool) (s t : qtri) : bool :=
-  pt_cmp ex (fst (fst s)) (fst (fst t)) &&& pt_cmp ex (snd (fst s)) (snd (fst t)) &&& pt_cmp ex (snd s) (snd t).
-(* same triangle up to the order of its corners *)
-Definition tri_same (ex : bool) (s t : qtri) : bool :=
-  let '(a, b, c) := t in
-  tri_cmp ex s (a, b, c) ||| tri_cmp ex s (a, c, b) ||| tri_cmp ex s (b, a, c)
-  ||| tri_cmp ex s (b, c, a) ||| tri_cmp ex s (c, a, b) ||| tri_cmp ex s (c, b, a).
-(* the sum of the first components is invariant under corner order: a cheap first test *)
-Definition xsum (t : qtri) : Q := Qred (fst (fst (fst t)) + fst (snd (fst t)) + fst (snd t)).
-Definition key_close (ex : bool) (a b : Q) : bool := if ex then Qeq_bool a b else Qabs_le_tol (4 # 1000000000) a b.
-Definition tris_subset (ex : bool) (l1 l2 : list qtri) : bool :=
-  let k2 := map (fun t => (xsum t, t)) l2 in
-  lforallb (fun s => let ks := xsum s in
-              lexistsb (fun kt : Q * qtri => key_close ex ks (fst kt) &&& tri_same ex s (snd kt)) k2) l1.
-Definition tris_same_set (ex : bool) (l1 l2 : list qtri) : bool := tris_subset ex l1 l2 &&& tris_subset ex l2 l1.
-Definition idx_eqb : list idx3 -> list idx3 -> bool := list_eqb idx3_eqb.
-Definition atri_eqb (A B : qatri) : bool := idx_eqb (fst A) (fst B) && list_eqb (pt_cmp true) (snd A) (snd B).
-Definition zpts_eqb : list zpt -> list zpt -> bool := list_eqb zpt_eqb.
-Definition cs_cmp (Sg R : qcs) : bool :=
-  zpts_eqb (c_coords Sg) (c_coords R) && qclose (c_side Sg) (c_side R) && qclose (c_xoff Sg) (c_xoff R)
-  && qclose (c_yoff Sg) (c_yoff R) && Bool.eqb (c_flipped Sg) (c_flipped R).
-Definition qtris (A : qatri) : list qtri := @a_triangles QOps A.
-Definition idx_ok (A : qatri) : bool := idx_in_range A.
-
-Inductive case :=
-| KATris (A : qatri) (out : list qtri)                        (* ArrayTriangles(...).triangles *)
-| KATrisRes (A : qatri) (out : res (list qtri))               (* possibly out-of-range index rows *)
-| KAArea (A : qatri) (out : Q)
-| KAUp (ex : bool) (A out : qatri)
-| KANbr (ex : bool) (A out : qatri)
-| KAFor (ex : bool) (A : qatri) (sel : list nat) (out : qatri)
-| KAWith (A : qatri) (vs : list qpt) (out : list qtri)
-| KAContain (A : qatri) (s : qshape) (out : list nat)
-| KShapeInit (s : qshape) (out : res qpt)                      (* constructor: reference point or exception *)
-| KALimits (h y_min y_max x_min x_max scale : Q) (out : qatri)
-| KCTris (h : Q) (Sg : qcs) (out : list qtri)
-| KCArea (h : Q) (Sg : qcs) (out : Q)
-  (* in_tris / out_tris: what .triangles returned for the input / output structure *)
-| KCUp (h : Q) (Sg : qcs) (in_tris : list qtri) (out : qcs) (out_tris : list qtri)
-| KCNbr (h : Q) (Sg : qcs) (in_tris : list qtri) (out : qcs) (out_tris : list qtri)
-| KCFor (h : Q) (Sg : qcs) (in_tris : list qtri) (sel : list nat) (out : qcs) (out_tris : list qtri)
-| KCRepr (h : Q) (Sg : qcs) (out : qatri)                       (* (indices, vertices) of the coordinate array *)
-| KCContain (h : Q) (Sg : qcs) (in_tris : list qtri) (s : qshape) (out : list nat)
-| KCLimits (h x_min x_max y_min y_max scale : Q) (out : qcs).
-
-Definition agree (k : case) : bool :=
-  match k with
-  | KATris A out => list_eqb (tri_cmp true) (qtris A) out
-  | KATrisRes A out => res_eqb (list_eqb (tri_cmp true)) (@a_triangles_checked QOps A) out
-  | KAArea A out => Qeq_bool (@a_area QOps A) out
-  | KAUp ex A out =>
-      if ex then atri_eqb (@a_up_sample QOps A) out
-      else list_eqb (tri_cmp false) (qtris (@a_up_sample QOps A)) (qtris out)
-  | KANbr ex A out =>
-      if ex then atri_eqb (@a_neighborhood QOps A) out
-      else tris_same_set false (qtris (@a_neighborhood QOps A)) (qtris out)
-  | KAFor ex A sel out =>
-      if ex then atri_eqb (@a_for_indexes QOps A sel) out
-      else list_eqb (tri_cmp false) (qtris (@a_for_indexes QOps A sel)) (qtris out)
-  | KAWith A vs out => list_eqb (tri_cmp true) (qtris (@a_with_vertices QOps A vs)) out
-  | KAContain A s out => list_eqb Nat.eqb (@a_containing QOps A s) out
-  | KShapeInit s out =>
-      res_eqb (pt_cmp false) (match @shape_init QOps s with Ok s' => Ok (@shape_ref QOps s') | Raise e => Raise e end) out
-  | KALimits h y0 y1 x0 x1 sc out =>
-      let m := @a_for_limits_and_scale QOps h y0 y1 x0 x1 sc in
-      idx_eqb (fst m) (fst out) && list_eqb (pt_cmp false) (snd m) (snd out)
-  | KCTris h Sg out => list_eqb (tri_cmp false) (@c_triangles QOps h Sg) out
-  | KCArea h Sg out => qclose (@c_area QOps h Sg) out
-  | KCUp h Sg it out ot =>
-      list_eqb (tri_cmp false) (@c_triangles QOps h Sg) it &&
-      cs_cmp (@c_up_sample QOps h Sg) out && list_eqb (tri_cmp false) (@c_triangles QOps h (@c_up_sample QOps h Sg)) ot
-  | KCNbr h Sg it out ot =>
-      list_eqb (tri_cmp false) (@c_triangles QOps h Sg) it &&
-      cs_cmp (@c_neighborhood QOps Sg) out && list_eqb (tri_cmp false) (@c_triangles QOps h (@c_neighborhood QOps Sg)) ot
-  | KCFor h Sg it sel out ot =>
-      list_eqb (tri_cmp false) (@c_triangles QOps h Sg) it &&
-      cs_cmp (@c_for_indexes QOps Sg sel) out && list_eqb (tri_cmp false) (@c_triangles QOps h (@c_for_indexes QOps Sg sel)) ot
-  | KCRepr h Sg out =>
-      (* np.unique on floats may keep two copies of a corner that differ in the last bit: compare geometrically *)
-      list_eqb (tri_cmp false) (qtris (@c_repr QOps h Sg)) (qtris out)
-  | KCContain h Sg it s out =>
-      list_eqb (tri_cmp false) (@c_triangles QOps h Sg) it && list_eqb Nat.eqb (@c_containing QOps h Sg s) out
-  | KCLimits h x0 x1 y0 y1 sc out => cs_cmp (@c_for_limits_and_scale QOps h x0 x1 y0 y1 sc) out
-  end.
-
-(* ---- specification verdict on the implementation's OUTPUT (never calls the routines of the model) ---- *)
-Definition qabs_cross (t : qtri) : Q := Qabs (@cross_sum QOps t).
-Definition spec_area (ts : list qtri) : Q := fold_right (fun a b => Qred (a + b)) 0 (map (fun t => qabs_cross t / 2) ts).
-Definition spec_up (ex : bool) (parents out : list qtri) : bool :=
-  Nat.eqb (length out) (4 * length parents)
-  && tris_same_set ex out (flat_map (@spec_children QOps) parents)
-  && qcmp ex (spec_area out) (spec_area parents)
-  && lforallb (fun p => lforallb (fun v => lexistsb (fun t =>
-        pt_cmp ex v (fst (fst t)) ||| pt_cmp ex v (snd (fst t)) ||| pt_cmp ex v (snd t)) out)
-       [fst (fst p); snd (fst p); snd p]) parents.
-Definition spec_nbr (ex : bool) (parents out : list qtri) : bool :=
-  tris_same_set ex out (flat_map (@spec_neighbours QOps) parents).
-Definition spec_select (ex : bool) (parents : list qtri) (sel : list nat) (out : list qtri) : bool :=
-  Nat.eqb (length out) (length sel) &&
-  forallb (fun so => match nth_error parents (fst so) with
-                     | Some t => tri_cmp ex t (snd so) | None => false end) (combine sel out).
-Definition shape_is_point (s : qshape) : bool := match s with SPoint _ => true | _ => false end.
-(* reported whenever the reference point is inside; for a bare point also only then *)
-Definition spec_contain (ts : list qtri) (s : qshape) (out : list nat) : bool :=
-  let r := @shape_ref QOps s in
-  forallb (fun it => let i := fst it in let t := snd it in
-             let ins := @spec_inside QOps r t in
-             let rep := existsb (Nat.eqb i) out in
-             if shape_is_point s then Bool.eqb ins rep else implb ins rep)
-          (combine (seq 0 (length ts)) ts)
-  && forallb (fun i => Nat.ltb i (length ts)) out.
-(* every triangle is equilateral with the requested side (h*h = 3/4 up to the tolerance) *)
-Definition dist2 (p q : qpt) : Q := (fst p - fst q) * (fst p - fst q) + (snd p - snd q) * (snd p - snd q).
-Definition equilateral (side : Q) (t : qtri) : bool :=
-  let '(a, b, c) := t in
-  qclose (dist2 a b) (side * side) && qclose (dist2 b c) (side * side) && qclose (dist2 c a) (side * side).
-Definition spec_ctris (h : Q) (Sg : qcs) (out : list qtri) : bool :=
-  Nat.eqb (length out) (length (c_coords Sg))
-  && forallb (fun ct => let c := fst ct in let t := snd ct in
-       equilateral (c_side Sg) t
-       (* the three corners lie on the rows bounding lattice row y and around column x *)
-       && (let cx := (1#2) * c_side Sg * inject_Z (fst c) + c_xoff Sg in
-           let cy := h * c_side Sg * inject_Z (snd c) + c_yoff Sg in
-           let '(a, b, d) := t in
-           let above := (fun p : qpt => if Qle_bool (snd p) cy then 0%nat else 1%nat) in
-           (* one corner above the centre line (pointing up) iff x + y + [flipped] is even *)
-           Nat.eqb (above a + above b + above d)
-                   (if Z.even (fst c + snd c + (if c_flipped Sg then 1 else 0)) then 1 else 2)
-           && qclose ((fst a + fst b + fst d) / 3) cx
-           && qclose (Qabs (snd a - cy)) ((1#2) * h * c_side Sg)
-           && qclose (Qabs (snd b - cy)) ((1#2) * h * c_side Sg)
-           && qclose (Qabs (snd d - cy)) ((1#2) * h * c_side Sg)))
-     (combine (c_coords Sg) out).
-
-Definition spec_ok (k : case) : bool :=
-  match k with
-  | KATris A out => negb (idx_ok A) ||
-      list_eqb (tri_cmp true)
-        (map (fun r => (nth (i0 r) (snd A) (0, 0), nth (i1 r) (snd A) (0, 0), nth (i2 r) (snd A) (0, 0))) (fst A)) out
-  | KATrisRes A out =>
-      match out with
-      | Ok ts => idx_ok A &&& list_eqb (tri_cmp true)
-                   (map (fun r => (nth (i0 r) (snd A) (0, 0), nth (i1 r) (snd A) (0, 0), nth (i2 r) (snd A) (0, 0))) (fst A)) ts
-      | Raise _ => negb (idx_ok A)
-      end
-  | KAArea A out => Qeq_bool (spec_area (qtris A)) out
-  | KAUp ex A out => negb (idx_ok A) || (idx_ok out && spec_up ex (qtris A) (qtris out))
-  | KANbr ex A out => negb (idx_ok A) || (idx_ok out && spec_nbr ex (qtris A) (qtris out))
-  | KAFor ex A sel out => negb (idx_ok A) || (idx_ok out && spec_select ex (qtris A) sel (qtris out))
-  | KAWith A vs out => list_eqb (tri_cmp true) (qtris (fst A, vs)) out
-  | KAContain A s out => spec_contain (qtris A) s out
-  | KShapeInit s out =>
-      match s, out with
-      | SPolygon vs, Raise _ => Nat.ltb (length vs) 3
-      | SPolygon vs, Ok _ => negb (Nat.ltb (length vs) 3)
-      | _, Ok _ => true
-      | _, Raise _ => false
-      end
-  | KALimits h y0 y1 x0 x1 sc out =>
-      idx_ok out && forallb (equilateral sc) (qtris out)
-  | KCTris h Sg out => spec_ctris h Sg out
-  | KCArea h Sg out => qclose out (h / 2 * (c_side Sg * c_side Sg) * inject_Z (Z.of_nat (length (c_coords Sg))))
-  | KCUp h Sg it out ot =>
-      spec_ctris h Sg it && spec_ctris h out ot && spec_up false it ot
-  | KCNbr h Sg it out ot =>
-      spec_ctris h Sg it && spec_ctris h out ot && spec_nbr false it ot
-  | KCFor h Sg it sel out ot =>
-      spec_ctris h Sg it && spec_ctris h out ot && spec_select false it sel ot
-  | KCRepr h Sg out => idx_ok out && spec_ctris h Sg (qtris out)
-  | KCContain h Sg it s out => spec_ctris h Sg it && spec_contain it s out
-  | KCLimits h x0 x1 y0 y1 sc out =>
-      qclose (c_side out) sc && negb (c_flipped out)
-  end.
-
-Definition check (k : case) : nat := verdict (agree k) (spec_ok k).
